@@ -15,3 +15,17 @@ func VerifCycleCheck(g *BuildGraph) []*BuildTarget {
 func VerifUnforwardedResults(state *BuildState) int {
 	return len(state.progress.internalResults)
 }
+
+// VerifNewCycleChecker returns a long-lived detector for g, as the build uses one: every call runs one Check.
+func VerifNewCycleChecker(g *BuildGraph) func() []*BuildTarget {
+	c := &cycleDetector{graph: g}
+	return func() []*BuildTarget {
+		if e := c.Check(); e != nil {
+			return e.Cycle
+		}
+		return nil
+	}
+}
+
+// VerifResolveDep resolves from's declared dependency on to (as happens one by one while a build runs).
+func VerifResolveDep(from, to *BuildTarget) { from.resolveDependency(to.Label, to) }
